@@ -447,3 +447,6 @@ func (t *Erc20) ERC20Transfer(ctx context.Context, contract, from, receiver comm
 	st.ops++
 	return nil
 }
+
+// LockedCoins: no vesting accounts in the model.
+func (b *Bank) LockedCoins(ctx context.Context, addr sdk.AccAddress) sdk.Coins { return sdk.Coins{} }
